@@ -2199,6 +2199,11 @@ func (k *Kernel) handleReplayedHeader(
 	// TODO: did we confirm the voting validator set matches replayed?
 	s.Voting.VoteSummary.SetPrecommitPowers(s.Voting.ValidatorSet.Validators, s.Voting.PrecommitProofs)
 
+	// The voting view gained a header and precommits:
+	// bump its version and hand it to the view managers like any other change,
+	// in case the commit check below leaves this round open.
+	s.MarkVotingViewUpdated()
+
 	// Since this was a replayed header and we know it was in the voting round,
 	// we must have added precommits.
 	// Update the store with whatever the new set of precommits is.
